@@ -21,4 +21,5 @@ if [ -n "$(git -C /repo status --porcelain)" ]; then echo "/repo dirty"; exit 2;
 git -C /repo apply $D/patch.diff || { echo "patch does not apply to /repo"; exit 2; }
 out=$(./check $P --tier quick 2>&1); code=$?
 git -C /repo checkout -- .
+git -C /verif checkout -- evidence/$P.json 2>/dev/null   # the seeded run must not leave its evidence behind
 echo "check $P with seed: exit=$code"; echo "$out" | grep "failed obligation" | cut -c1-220 | head -6; echo "$out" | grep "^VIOLATION" | head -3
